@@ -151,9 +151,8 @@ def run_single(case, ctx):
     outs = {}
     for gi, g in enumerate(G):
         try:
-            if D == 1:
-                # D=1 is only reachable through the array-level and multi-image entry points for k=0
-                o = geom.times_group_element(D, jnp.asarray(A), p, g)
+            if False:
+                pass
             else:
                 o = geom.times_group_element(D, jnp.asarray(A), p, g)
                 img = geom.GeometricImage(jnp.asarray(A), p, D, torus)
